@@ -429,6 +429,8 @@ pub struct Runner {
     pub seen_col_rewrite: bool,
     /// columns rewritten in place (Update/RewriteColumns) by a partial-schema merge_insert
     pub rewritten_cols: BTreeSet<String>,
+    /// C38: predicates over indexed columns that are re-issued through the long-lived session
+    pub cache_preds: Vec<Pred>,
     /// a compaction with immediate index remap ran while a deferred remap was still pending
     pub eager_after_defer: bool,
     /// history contained a compaction with deferred index remap while an index existed
@@ -523,7 +525,7 @@ impl Runner {
                 history.insert(ds.version().version, st.clone());
                 let mut lin = crate::lineage::Lineage::new();
                 lin.init(&st, ds.version().version);
-                Ok(Self { cfg, rng, w, ctx, ds, st, history, gen, res, next_actor: 100, step: 0, seen_col_rewrite: false, rewritten_cols: BTreeSet::new(), eager_after_defer: false, seen_defer_remap: false, lin, recreated: false })
+                Ok(Self { cfg, rng, w, ctx, ds, st, history, gen, res, next_actor: 100, step: 0, seen_col_rewrite: false, rewritten_cols: BTreeSet::new(), cache_preds: Vec::new(), eager_after_defer: false, seen_defer_remap: false, lin, recreated: false })
             }
             Err(e) => {
                 res.violate("C11", "create", "create-failed", 0, e);
@@ -1097,6 +1099,15 @@ pub async fn run_seq(cfg: RunCfg) -> RunResult {
                 r.gen.defer_rate = 0.0;
             }
         }
+        "C38" => {
+            r.gen.inexact_indices = false;
+            // cached index pages depend on the fragment-reuse index: exercise deferred remaps under
+            // every cache capacity (not on stable-row-id tables: KF-03)
+            if !r.ctx.stable_row_ids {
+                r.gen.allow_defer_remap = true;
+                r.gen.defer_rate = *r.rng.pick(&[0.0f64, 0.3, 0.8]);
+            }
+        }
         // inexact (zone / n-gram) indices are exercised by C20's check only
         _ => r.gen.inexact_indices = false,
     }
@@ -1116,7 +1127,9 @@ pub async fn run_seq(cfg: RunCfg) -> RunResult {
             continue;
         }
         let nviol_before = r.res.violations.len();
-        let outcome = guarded(async {
+        // the whole step (operation + oracles) runs under a virtual-time deadline: a call that
+        // never completes is a violation with a signature, not a real-time watchdog error
+        let outcome = guarded(tokio::time::timeout(std::time::Duration::from_secs(60 * 86_400), async {
             let changed = r.do_op(&op).await;
             let prop = prop_for_op(&op);
             let what_s = format!("{}{}", op_sig_kind(&op, &r.st), r.history_tags(&op, &[]));
@@ -1166,8 +1179,18 @@ pub async fn run_seq(cfg: RunCfg) -> RunResult {
                     c42_tags.insert(name, v);
                 }
             }
-        })
+        }))
         .await;
+        let outcome = match outcome {
+            Ok(Ok(())) => Ok(()),
+            Ok(Err(_elapsed)) => {
+                let tags = format!("{}{}", if matches!(op, Op::Compact { defer_remap: true, .. }) { ":deferred-compaction" } else { "" }, if r.ctx.stable_row_ids { ":stable-row-ids" } else { "" });
+                r.res.violate(prop_for_op(&op), "liveness", &format!("step-never-completes:{}{}", op.kind(), tags), step, format!("{} or the reads after it did not complete within 60 virtual days", op.brief()));
+                r.res.probe("step-stuck");
+                break;
+            }
+            Err(p) => Err(p),
+        };
         if let Err(p) = outcome {
             let prop = prop_for_op(&op);
             let tags = format!("{}{}", if matches!(op, Op::Compact { defer_remap: true, .. }) { ":deferred-compaction" } else { "" }, if r.ctx.stable_row_ids { ":stable-row-ids" } else { "" });
